@@ -77,13 +77,16 @@ def random_diagram(rng):
             idents.append([a.name for a in attrs[1:3] if a.derived is None] or ['Id'])
         d.classes.append(bp.Cls('Class %d' % i, 'K%d' % i, i + 1, attrs, idents,
                                 where=rng.choice(('pkg', 'comp', 'comp'))))
+    if rng.random() < 0.5:
+        d.classes.append(bp.Cls('Elsewhere', 'KX', 99, [bp.Attr('Id', 'unique_id'), bp.Attr('n', 'integer')],
+                                [['Id']], where='comp2'))
     numb = 0
     for _ in range(rng.randint(1, 5)):
         numb += rng.randint(1, 3)
         kind = rng.choice(('simple', 'simple', 'linked', 'subsuper'))
 
         def pick(where=None):
-            cs = [c for c in d.classes if where is None or c.where == where]
+            cs = [c for c in d.classes if c.where != 'comp2' and (where is None or c.where == where)]
             return rng.choice(cs) if cs else None
 
         def ends():
@@ -112,7 +115,7 @@ def random_diagram(rng):
             if len(d.classes) < 2:
                 continue
             link = pick()
-            others = [c for c in d.classes if c is not link and (link.where != 'comp' or c.where == 'comp')]
+            others = [c for c in d.classes if c is not link and c.where != 'comp2' and (link.where != 'comp' or c.where == 'comp')]
             if not others:
                 continue
             one, other = rng.choice(others), rng.choice(others)
@@ -128,15 +131,17 @@ def random_diagram(rng):
                 continue
             sup = pick()
             subs = [c for c in d.classes if c is not sup and (c.where == sup.where or sup.where == 'pkg' and False)]
-            subs = [c for c in d.classes if c is not sup and c.where == sup.where]
+            subs = [c for c in d.classes if c is not sup and c.where == sup.where and c.where != 'comp2']
             if not subs:
                 continue
             chosen = rng.sample(subs, min(len(subs), rng.randint(1, 2)))
             sub_list = []
             for s in chosen:
-                an = 's%d_Id' % numb
+                an = 's%d_%s_Id' % (numb, s.kl)
                 s.attrs.insert(1, bp.Attr(an, None))
                 sub_list.append((s.kl, [(an, 'Id')]))
+                # the referential attribute may itself be referred to (chains of referentials)
+                s.identifiers.append([an])
             d.rels.append(bp.SubSuper(numb, sup.kl, sub_list, sup.where))
     return d
 
@@ -194,7 +199,7 @@ def edit(rng, d):
         if not free:
             return None
         c = rng.choice(free)
-        c.where = 'comp' if c.where == 'pkg' else 'pkg'
+        c.where = rng.choice([w for w in ('pkg', 'comp', 'comp2') if w != c.where])
         return ('move', c.kl, c.where)
     return None
 
